@@ -208,9 +208,10 @@ func (fr *Frame) step(st *State, in ssa.Instruction, edgeCond map[[2]int]*Term) 
 		// the spawned goroutine is outside the model; its arguments escape
 		fc.note("go statement ignored (concurrency not modelled)" + fr.posOf(x))
 	case *ssa.Send:
-		fc.note("channel send ignored" + fr.posOf(x))
+		fc.note("channel send: only counted ($sent), the receiver is outside the model" + fr.posOf(x))
+		fr.bumpChan(st, "$sent", True)
 	case *ssa.Select:
-		panic(unsupported("select"))
+		fr.selectInstr(st, x)
 	case *ssa.Range:
 		fr.rangeInit(st, x)
 	case *ssa.Next:
@@ -559,4 +560,42 @@ func sliceWrittenDirectly(x *ssa.Slice) bool {
 		}
 	}
 	return false
+}
+
+// bumpChan increments a channel-operation ghost counter under a condition.
+func (fr *Frame) bumpChan(st *State, name string, cond *Term) {
+	fc := fr.fc
+	k := "ghost:" + name
+	fc.heapSorts[k] = SBV64
+	cur := fc.get(st, k, SBV64)
+	st.heap[k] = Ite(cond, bvBin("bvadd", cur, BVLit64(1, 64)), cur)
+}
+
+// selectInstr: a select statement picks one of its cases (any of them, or none when it has a
+// default and is non-blocking): the chosen index is unconstrained within range, received values
+// are unconstrained (they come from other goroutines), sends and receives are counted.
+func (fr *Frame) selectInstr(st *State, x *ssa.Select) {
+	fc := fr.fc
+	fc.note("select: an arbitrary case is taken; received values are unconstrained" + fr.posOf(x))
+	n := len(x.States)
+	idx := fc.fresh("select.index", SBV64)
+	lo := bvCmp("bvsle", BVLit64(0, 64), idx)
+	if !x.Blocking {
+		lo = bvCmp("bvsle", BVLit64(^uint64(0), 64), idx) // -1: default case
+	}
+	fc.assume(st.pc, And(lo, bvCmp("bvslt", idx, BVLit64(uint64(n), 64))))
+	out := []*Term{idx, fc.fresh("select.ok", SBool)}
+	for i, s := range x.States {
+		chosen := Eq(idx, BVLit64(uint64(i), 64))
+		if s.Dir == types.RecvOnly {
+			elem := s.Chan.Type().Underlying().(*types.Chan).Elem()
+			v := fc.fresh("select.recv", SortOf(elem))
+			fr.typeInv(st, v, elem)
+			out = append(out, v)
+			fr.bumpChan(st, "$recv", chosen)
+		} else {
+			fr.bumpChan(st, "$sent", chosen)
+		}
+	}
+	fr.tuples[x] = out
 }
